@@ -57,6 +57,15 @@ def vlog(msg):
     print(f"[vh {time.time() - _T0:7.1f}s] {msg}", file=sys.stderr, flush=True)
 
 
+def claimed_ids():
+    """Properties the coordinator has accepted into MANIFEST.json (claimed.json, maintained by hand)."""
+    try:
+        with open(os.path.join(VERIF, "claimed.json"), encoding="utf-8") as f:
+            return set(json.load(f))
+    except (OSError, ValueError):
+        return set()
+
+
 class Ctx:
     def __init__(self, prop_id, tier, seed):
         self.prop_id = prop_id
